@@ -10,6 +10,9 @@ PROPS = ["C06", "C16"]
 TRUSTED = ["verus 0.2026.09.13 + z3", "A-vstd (str::chars for-loop specification)"]
 
 SPECS = """
+// A-spec: char::len_utf16 (vstd specifies len_utf8 only): one code unit up to U+FFFF, two above.  Offsets counted in UTF-16 units are not byte offsets.
+pub assume_specification [char::len_utf16] (c: char) -> (r: usize)
+    ensures r == (if (c as u32) < 0x10000 { 1usize } else { 2usize });
 // number of newline characters among the first n characters: the 0-based index of the line that contains character n
 pub open spec fn count_nl(s: Seq<char>, n: int) -> nat decreases n {
     if n <= 0 { 0 } else { count_nl(s, n - 1) + if s[n - 1] == '\\n' { 1nat } else { 0nat } }
